@@ -198,10 +198,19 @@ fn idna_unicode(host: &str) -> Option<String> {
 pub struct World {
     pub psl: Psl,
     pub custom: Arc<Psl>,
+    /// reference for the second generated table (oracles/tinytable.rs)
+    pub tiny: Psl,
 }
 impl World {
     pub fn load() -> Result<World, String> {
-        Ok(World { psl: Psl::load(super::c10::DAT)?, custom: Arc::new(parse_custom()) })
+        Ok(World { psl: Psl::load(super::c10::DAT)?, custom: Arc::new(parse_custom()), tiny: crate::oracles::tinytable::reference() })
+    }
+    fn registrable3(&self, custom: bool, err: u8, r: &str) -> bool {
+        if custom && err == 3 {
+            self.tiny.registrable(r)
+        } else {
+            self.registrable(custom, r)
+        }
     }
     fn registrable(&self, custom: bool, r: &str) -> bool {
         if custom {
@@ -243,7 +252,10 @@ fn verify(w: &World, c: &Case) -> (Verdict, Option<(String, String)>) {
             }
         }};
     }
-    if c.custom_provider && c.custom_err != 0 {
+    if c.custom_provider && c.custom_err == 3 {
+        // the shipped generic list provider over a second, hand-encoded table
+        go!(RpIdVerifier::new(crate::oracles::tinytable::TINY))
+    } else if c.custom_provider && c.custom_err != 0 {
         go!(RpIdVerifier::new(CustomProviderErr(w.custom.clone(), c.custom_err)))
     } else if c.custom_provider {
         go!(RpIdVerifier::new(CustomProvider(w.custom.clone())))
@@ -279,7 +291,7 @@ fn oracle(w: &World, c: &Case, scheme: &str, host: &str, accepted: &str) -> Vec<
     if !localhost_exception {
         if r == "localhost" {
             v.push((if c.localhost { "localhost-exception-for-other-host" } else { "localhost-without-opt-in" }, format!("RP ID localhost accepted for host {host:?} (insecure localhost enabled: {})", c.localhost)));
-        } else if !w.registrable(c.custom_provider, r) {
+        } else if !w.registrable3(c.custom_provider, c.custom_err, r) {
             v.push(("public-suffix-accepted", format!("RP ID {r:?} is not a registrable domain under the {} list", if c.custom_provider { "custom" } else { "shipped" })));
         }
         if web && !scheme.eq_ignore_ascii_case("https") {
@@ -316,7 +328,9 @@ pub fn eval(w: &World, c: &Case) -> (Vec<Finding>, String, bool) {
     // is_valid_rp_id on the RP ID string itself
     if let Some(rp) = &c.rp {
         let valid = par::catch(|| {
-            if c.custom_provider && c.custom_err != 0 {
+            if c.custom_provider && c.custom_err == 3 {
+                RpIdVerifier::new(crate::oracles::tinytable::TINY).allows_insecure_localhost(c.localhost).is_valid_rp_id(rp)
+            } else if c.custom_provider && c.custom_err != 0 {
                 RpIdVerifier::new(CustomProviderErr(w.custom.clone(), c.custom_err)).allows_insecure_localhost(c.localhost).is_valid_rp_id(rp)
             } else if c.custom_provider {
                 RpIdVerifier::new(CustomProvider(w.custom.clone())).allows_insecure_localhost(c.localhost).is_valid_rp_id(rp)
@@ -327,7 +341,7 @@ pub fn eval(w: &World, c: &Case) -> (Vec<Finding>, String, bool) {
         match valid {
             Err(p) => fs.push(Finding::new(format!("origin=any/kind=is-valid-rp-id-panic/site={}", par::panic_site(&p)), format!("is_valid_rp_id({rp:?}) panicked: {p}"), case.clone())),
             Ok(true) => {
-                if !(w.registrable(c.custom_provider, rp) || (rp == "localhost" && c.localhost)) {
+                if !(w.registrable3(c.custom_provider, c.custom_err, rp) || (rp == "localhost" && c.localhost)) {
                     fs.push(Finding::new("origin=any/kind=is-valid-rp-id-accepts-public-suffix", format!("is_valid_rp_id({rp:?}) = true but it is not registrable (custom={})", c.custom_provider), case.clone()));
                 }
             }
@@ -436,12 +450,15 @@ fn through_client(_w: &World, c: &Case, verdict: &Verdict, case: &Value) -> Vec<
 
 pub fn cases(w: &World, tier: Tier) -> Vec<Case> {
     let mut v = vec![];
+    // dictionary-derived hosts (millions) meet the shipped provider and the harness provider only;
+    // the other provider variants meet the fixed host table
+    let in_dictionary_part = std::cell::Cell::new(false);
     let mut push = |kind: &str, origin: String, rp: Option<String>, tc: bool| {
         for localhost in [false, true] {
             for custom_provider in [false, true] {
                 v.push(Case { kind: kind.into(), origin: origin.clone(), rp: rp.clone(), localhost, custom_provider, through_client: tc && !custom_provider, custom_err: 0 });
-                if custom_provider && !localhost {
-                    for custom_err in [1u8, 2] {
+                if custom_provider && !localhost && !in_dictionary_part.get() {
+                    for custom_err in [1u8, 2, 3] {
                         v.push(Case { kind: kind.into(), origin: origin.clone(), rp: rp.clone(), localhost, custom_provider, through_client: false, custom_err });
                     }
                 }
@@ -464,6 +481,7 @@ pub fn cases(w: &World, tier: Tier) -> Vec<Case> {
     // host names built from the constants dictionary: every literal in the client and
     // public-suffix sources that can be a host label or name, alone, below a registrable
     // domain, above one, and with a letter glued on either side
+    in_dictionary_part.set(true);
     for host in dict_hosts() {
         for rp in rp_ids_for(&host) {
             push("web", format!("https://{host}/"), rp.clone(), false);
